@@ -182,7 +182,7 @@ def build_v1(run, prop, E):
         arr = z3.Array("sb", z3.IntSort(), z3.IntSort())
         for p, ctx, out in run_paths(E, setup, lambda E, ctx: E.call(f, [ctx["self"], ctx["sm"], ctx["m"]])):
             tag = {"what": "v1", "blen": blen}
-            run.add(*path_obligations(run, prop, f, p, cs))
+            run.add(*path_obligations(run, prop, f, p, cs, tag=tag))
             if out[0] == "raise":
                 run.add(Obligation(prop, qualname(f), "never_raises", p.pc, z3.BoolVal(False), kind="noexc", note=exc_note(out[1]), case=cs + "," + out[1].cls.__name__, where=where(f), tag=tag))
                 continue
@@ -247,8 +247,8 @@ def build_handle(run, prop, E):
     smarr = z3.Array("sm.burst", z3.IntSort(), z3.IntSort())
     n_sent = 0
     for p, ctx, out in run_paths(E, setup, inv):
-        run.add(*path_obligations(run, prop, h, p, ""))
         tag = {"what": "handle"}
+        run.add(*path_obligations(run, prop, h, p, "", tag=tag))
         if out[0] == "raise":
             run.add(Obligation(prop, qualname(h), "never_raises", p.pc, z3.BoolVal(False), kind="noexc", note=exc_note(out[1]), case=out[1].cls.__name__, where=where(h), tag=tag))
             continue
@@ -454,4 +454,41 @@ def replay(payload):
             ts = native_pick_spec(bits) if len(bits) == 148 else None
             ok = ok and (r.tsc, r.tsc_set) == ((ts.tsc, ts.tsc_set) if ts else (0, 0))
         return {"confirmed": not ok, "observed": [r.fn, r.tn, r.ver, r.rssi, r.toa256, r.tsc, r.tsc_set], "expected": "per C10 formulae"}
+    if what in ("gen", "fb", "db", "tsmeta"):
+        # generator output has no input besides the training sequence and the random source: sample the real generator
+        rb = toolkit("rand_burst_gen")
+        g = rb.RandBurstGen()
+        bad = []
+        if what == "tsmeta":
+            for ts in gs.TrainingSeqGMSK:
+                if not (0 <= ts.tsc <= 7 and ts.tsc_set == 0 and len(ts.seq) == {"NORMAL": 26, "ACCESS": 41, "SYNC": 64}[ts.bt.name]):
+                    bad.append({"member": ts.name, "tsc": ts.tsc, "tsc_set": ts.tsc_set, "len": len(ts.seq)})
+            return {"confirmed": bool(bad), "observed": bad or "as documented", "expected": "tsc 0..7, set 0, 26/41/64 bits"}
+        if what == "db":
+            db = list(g.db_bits)
+            return {"confirmed": not (len(db) == 148 and set(db) <= {0, 1}), "observed": [len(db), sorted(set(db))], "expected": "148 binary values"}
+        if what == "fb":
+            b = g.gen_fb()
+            return {"confirmed": not (isinstance(b, bytearray) and len(b) == 148 and not any(b)), "observed": [type(b).__name__, len(b), sum(b)], "expected": "148 zero bits"}
+        layouts = {"gen_nb": ("NORMAL", [(0, 3), (145, 148)]), "gen_sb": ("SYNC", [(0, 3), (145, 148)]), "gen_ab": ("ACCESS", [(0, 8), (85, 148)])}
+        gen, bt = f["gen"], layouts[f["gen"]][0]
+        for ts in gs.TrainingSeqGMSK:
+            if ts.bt.name != bt or (f.get("ts") and ts.name != f["ts"] and len(bad) > 3):
+                continue
+            for _ in range(60):
+                try:
+                    b = getattr(g, gen)(ts)
+                except Exception as e:
+                    bad.append({"ts": ts.name, "observed": "raises %s: %s" % (type(e).__name__, e)})
+                    break
+                off = R.TS_OFFSET[bt]
+                ok = isinstance(b, bytearray) and len(b) == 148 and set(b) <= {0, 1} and list(b[off:off + len(ts.seq)]) == list(ts.seq)
+                ok = ok and all(b[i] == 0 for lo, hi in layouts[gen][1] for i in range(lo, hi))
+                picked = gs.TrainingSeqGMSK.pick(b) if ok else None
+                ok = ok and picked is not None and (picked is ts or list(gs.TrainingSeqGMSK).index(picked) < list(gs.TrainingSeqGMSK).index(ts))
+                if not ok:
+                    bad.append({"generator": gen, "ts": ts.name, "burst": list(b) if isinstance(b, (bytes, bytearray)) else repr(b)[:60],
+                                "picked": getattr(picked, "name", None)})
+                    break
+        return {"confirmed": bool(bad), "observed": bad[:3] or "as specified", "expected": "148 binary bits, tail/guard zero, training sequence at its offset, recognised by pick()"}
     return {"confirmed": False, "error": "no native replay for %r" % what}
